@@ -82,7 +82,11 @@ func (e *posEngine) generate(r *rng, n int, tier string, emit func(string)) {
 	for i := 0; i < n; i++ {
 		fault := r.pick(faults)
 		tb := &textBuilder{line: 1}
-		if r.chance(1, 4) {
+		headerModule := ""
+		if r.chance(1, 8) {
+			headerModule = r.pick([]string{"other.lisp", "nightly report.lisp", "my scripts/prog.lisp", "m2"})
+			tb.write(";; $MODULE " + headerModule + "\n")
+		} else if r.chance(1, 4) {
 			// blank / comment lines before the first token count as lines
 			tb.write(r.pick([]string{"\n", "\n\n\n", "  \n\t\n", "; leading comment\n\n", "\r\n\r\n"}))
 		} else if r.chance(1, 5) {
@@ -90,6 +94,10 @@ func (e *posEngine) generate(r *rng, n int, tier string, emit func(string)) {
 			tb.write(r.pick([]string{";; $MODULE other.lisp\n", ";; $MODULE scratch/old-dump.lisp\n", ";; $MODULE m2\n\n"}))
 		}
 		tb.write("(do\n")
+		if r.chance(1, 3) {
+			// the identifiers of the fault also occur EARLIER in the text, on other lines, in innocent places
+			tb.write("(def ok8 (quote (undefined-symbol-x undefined-fn\n  nth throw assert)))\n(def ok9 (fn [undefined-symbol-x]\n  undefined-symbol-x))\n")
+		}
 		for k, m := 0, r.intn(3); k < m; k++ {
 			tb.write(r.pick(fillerForms) + "\n")
 			if r.chance(1, 3) {
@@ -131,6 +139,11 @@ func (e *posEngine) generate(r *rng, n int, tier string, emit func(string)) {
 		}
 		tb.write("nil)")
 		module := r.pick([]string{"prog.lisp", "dir/mod.lisp", "m"})
+		if headerModule != "" {
+			// the caller's cursor names no module: the header line does (white space included)
+			emit(fmt.Sprintf("m=%s h=1 t=%d-%d f=%d x%s", hx(headerModule), topStart, topEnd, faultLine, hex.EncodeToString([]byte(tb.b.String()))))
+			continue
+		}
 		emit(fmt.Sprintf("m=%s t=%d-%d f=%d x%s", hx(module), topStart, topEnd, faultLine, hex.EncodeToString([]byte(tb.b.String()))))
 	}
 }
@@ -157,7 +170,11 @@ func (e *posEngine) run(payload string) string {
 	if err != nil {
 		return "setup-error"
 	}
-	ast, err := lisp.READ(string(text), NewCursorFile(module), env)
+	cursor := NewCursorFile(module)
+	if strings.Contains(" "+payload+" ", " h=1 ") {
+		cursor = nil
+	}
+	ast, err := lisp.READ(string(text), cursor, env)
 	if err != nil {
 		return "read-error " + errClass(err)
 	}
